@@ -16,7 +16,7 @@ LEVEL = "exploration"
 def describe(tier):
     return {
         "rule": "TLS: every table suite x valid version (x EtM, x TLS 1.3 hs secrets) with a 6-record history, every cipher-state class "
-                "with a full-duplex capture (records spanning segments, packets of the other direction between them), and every handshake "
+                "with a full-duplex capture (records spanning segments, packets of the other direction between them) and with captures in which consecutive writes share segments (server / client speaking first, MSS 1460/400/77), and every handshake "
                 "shape within 1 deviation for 9 classes; QUIC: default connection and every 1-deviation scenario of C02's menu; each "
                 "run with and without -a. non-trivial: the -a output holds strictly more payload-carrying packets than the plain "
                 "output and the plain output holds data; distinct = distinct scenario",
@@ -44,10 +44,14 @@ def is_subseq(a, b):
     return all(any(x == y for y in it) for x in a)
 
 
-def tls_pair(scn, seed, sig, fails, duplex=False):
+def tls_pair(scn, seed, sig, fails, duplex=False, merged_mss=None):
     conn = scen.tls_conn(scn, seed)
     ends = cap.Ends(6)
-    if duplex:
+    if merged_mss:
+        # consecutive writes of one direction share segments: the end of a handshake flight and the first application
+        # records travel in the same segment, records straddle segment boundaries
+        pk = cap.stamp(scen.tls_packets(conn, merged=True, mss=merged_mss), {0: ends})
+    elif duplex:
         # records spanning segments, with packets of the other direction captured between the segments of a record
         base = scen.tls_packets(conn, mss=400)
         pk = cap.stamp(scen.duplex_interleave(base, scen.first_app_packet(conn, base)), {0: ends})
@@ -72,8 +76,21 @@ def tls_pair(scn, seed, sig, fails, duplex=False):
     if cp is None or (cp["c2s"], cp["s2c"]) != want_c:
         fails.append({"kind": "plain_export_wrong", "sig": sig, "detail": "export without -a differs from the plaintext"})
         return False
+    def verbatim(d, raw):
+        # the record is the payload of a packet of its own - or, when it was carried in k segments, of k consecutive
+        # packets of its own (one output packet per source packet, as for application records): nothing else shares them
+        dirseq = [p for dd, p in seq_m if dd == d]
+        for i in range(len(dirseq)):
+            acc = b""
+            for j in range(i, len(dirseq)):
+                acc += dirseq[j]
+                if acc == raw:
+                    return True
+                if not raw.startswith(acc):
+                    break
+        return False
     for name, rec, d in (("ClientHello", conn.client_hello_rec, "c2s"), ("ServerHello", conn.server_hello_rec, "s2c")):
-        if (d, rec.raw) not in seq_m:
+        if not verbatim(d, rec.raw):
             fails.append({"kind": "hello_record_not_verbatim", "sig": dict(sig, record=name),
                           "detail": f"{name} record ({len(rec.raw)} bytes) is not the payload of a packet of its own with -a"})
             return False
@@ -152,6 +169,15 @@ def run_case(case):
         n += 2
         if ok:
             nontriv.append(engine.jhash(sig))
+        for first in ("s", "c"):
+            for mss in (1460, 400, 77):
+                hist = [("s", 30), ("s", 500), ("c", 90), ("c", 6), ("s", 210), ("s", 1)] if first == "s" else \
+                       [("c", 30), ("c", 500), ("s", 90), ("s", 6), ("c", 210)]
+                sig = {"layer": "D", "class": c01.class_name(v, code, etm, hs), "capture": f"writes sharing segments, {first} speaks first", "mss": mss}
+                ok = tls_pair(dict(scn, history=hist), seed, sig, fails, merged_mss=mss)
+                n += 2
+                if ok:
+                    nontriv.append(engine.jhash(sig))
     elif case["layer"] == "C":
         v, code, etm, hs = case["v"], case["suite"], case["etm"], case["hs"]
         menu = c01.SHAPES_13 if v == tls.TLS13 else c01.SHAPES_LEGACY
